@@ -246,13 +246,14 @@ class MultiDict(MutableMapping):
         if other is None:
             pass
         elif hasattr(other, "items"):
-            self._items.extend(other.items())
+            # list() first: ``other`` may be this very dict (or a view of
+            # it), and extending a list from an iterator over itself never
+            # ends
+            self._items.extend(list(other.items()))
         elif hasattr(other, "keys"):
-            for k in other.keys():
-                self._items.append((k, other[k]))
+            self._items.extend([(k, other[k]) for k in other.keys()])
         else:
-            for k, v in other:
-                self._items.append((k, v))
+            self._items.extend([(k, v) for k, v in other])
 
         if kwargs:
             self.update(kwargs)
